@@ -148,7 +148,7 @@ MV gen_mv(Rng& r, const GenProfile& p, unsigned depth) {
       for (unsigned i = 0; i < 2 * n; i++) v.kids.push_back(gen_mv(r, p, depth + 1));
       break;
     }
-    default: v.kind = MK_TAG; v.val = gen_u64(r); v.kids.push_back(gen_mv(r, p, depth + 1)); break;
+    default: { static const uint64_t IANA[] = {0, 1, 2, 3, 4, 5, 16, 17, 18, 21, 22, 23, 24, 32, 33, 34, 35, 36, 37, 100, 258, 1004, 55799}; v.kind = MK_TAG; v.val = r.chance(1, 3) ? IANA[r.below(sizeof IANA / sizeof IANA[0])] : gen_u64(r); v.kids.push_back(gen_mv(r, p, depth + 1)); break; }
   }
   return v;
 }
